@@ -16,6 +16,9 @@ from streamflow.core.workflow import Port, Step, Token, Workflow
 from streamflow.workflow.token import ListToken, ObjectToken, TerminationToken
 
 
+TERM_SPINS = 12
+
+
 class StepHang(Exception):
     """the step did not become idle / did not terminate within the bound"""
 
@@ -74,6 +77,11 @@ async def drive(step: Step, events: list[tuple[str, Token]], imposed: bool = Tru
             step.get_input_port(pn).put(tok)
             if isinstance(tok, TerminationToken) and pn in open_ports:
                 open_ports.remove(pn)
+                # the step takes no new `get` on this port, so its queue state cannot tell when the termination token
+                # has been processed; processing it involves no await: a few loop iterations are enough
+                # (getter wake-up -> get task done -> asyncio.wait wakes the step -> the step handles the token)
+                for _ in range(TERM_SPINS):
+                    await asyncio.sleep(0)
             if not open_ports:
                 break
             await settle(step, task, open_ports, budget_s)
